@@ -290,6 +290,13 @@ func buildWorkflow(s *spec.Spec) (*sp.Workflow, map[string]*node) {
 			} else {
 				tn.in(tport).From(fn.out(fport))
 			}
+			if c.Undo != "" {
+				// the connection is taken off again through the ports' public Disconnect
+				tn.in(tport).Disconnect(fn.out(fport).Name())
+				if c.Undo == "both" {
+					fn.out(fport).Disconnect(tn.in(tport).Name())
+				}
+			}
 		}
 	}
 	return wf, nodes
